@@ -729,7 +729,10 @@ def rule_value_preserving(rep: Report, repo: Repo):
             if isinstance(node, ast.Call):
                 nm = call_name(node) or norm(node.func)
                 dt = [k for k in node.keywords if k.arg == "dtype"]
-                if dt and nm not in CONST_CONSTRUCTORS and norm(dt[0].value) != "object":
+                # a collection of truth values stored as bool is exact (e.g. `np.fromiter((e is zero for e in a), dtype=bool)`)
+                pred_elems = norm(dt[0].value) == "bool" and node.args and isinstance(node.args[0], (ast.GeneratorExp, ast.ListComp)) \
+                    and isinstance(node.args[0].elt, (ast.Compare, ast.BoolOp)) if dt else False
+                if dt and nm not in CONST_CONSTRUCTORS and norm(dt[0].value) != "object" and not pred_elems:
                     what = f"`dtype=` conversion in `{norm(node)[:70]}`"
                 elif dt and nm == "np.array" and norm(dt[0].value) not in ("object", "int", "bool"):
                     what = f"`dtype=` conversion in `{norm(node)[:70]}`"
